@@ -273,6 +273,14 @@ func runC07Session(c *Ctx, pki *tlsPKI, suite uint16, f c07Fault, idx int, ivMu 
 	var got []byte
 	var rerr error
 	stickyBad := ""
+	halfClosed := idx%3 == 1
+	if halfClosed {
+		// the receiver has finished sending (close_notify) and only reads from now on: errors on its inbound stream must
+		// stay as fatal and as sticky as on a fully open connection
+		receiver.CloseWrite()
+		w["receiver_half_closed_before_reading"] = true
+		rep.Count("blackbox_runs_with_half_closed_receiver", 1)
+	}
 	go func() {
 		defer wg.Done()
 		buf := make([]byte, 20000)
